@@ -28,7 +28,7 @@ RULE = ("get_multiplier_sequence: every subset of {1..10} of size <=4 (quick) / 
 TRUSTED = ["h5py Group.copy makes a faithful copy of a base level (observed: bins incl. extra columns, pixels, indexes, attributes are compared with the source)",
            "coarsen_cooler = model of property C08 (same correspondence run style), multiprocess.Pool.map order preserving"]
 ASSUMPTIONS = ["resolutions and base bin sizes are positive integers", "all base coolers share one chromosome table"]
-RESIDUE = ["as C08: process scheduling / HDF5 lock not modelled", "the Gallina model and the theorems are for the default aggregation (sum); requested aggregations max/min and extra value columns are checked by the oracle only (mean does not compose along a chain and is outside the claim)", "the CLI tokenizer (strip/lower/split) is modelled by token classes; int() parsing by the harness",
+RESIDUE = ["as C08: process scheduling / HDF5 lock not modelled", "the theorems hold for every permutation-invariant aggregation that composes over non-empty blocks; the correspondence drives sum, max and min on integer columns through the model (zoomify_cooler_g); the mean does not compose along a chain (ex_C09_mean_chain_refuted) and is outside the claim", "the CLI tokenizer (strip/lower/split) is modelled by token classes; int() parsing by the harness",
            "--balance and --legacy are outside the claim"]
 ALLOW_AXIOMS = ()
 
@@ -528,6 +528,26 @@ def part_cols(ctx):
         if case["extra"] == "rand":
             case["extra"] = [rng.randint(-9, 40) for _ in case["pixels"]]
         cases.append(case)
+    # the model with the requested aggregation, column by column:  zoomify_cooler_g (agg_of op)
+    exprs, owners = [], []
+    for i, case in enumerate(cases):
+        blocks = fixed_blocks(case["sizes"], case["binsize"])
+        t, sz = G.coq_bins(G.flat_of(blocks)), C.zl(G.sizes_of(blocks))
+        for c in case["columns"]:
+            vals_ = [p[2] for p in case["pixels"]] if c == "count" else list(case["extra"])
+            px = G.coq_pixels([[p[0], p[1], v] for p, v in zip(case["pixels"], vals_)])
+            base = C.tup(C.z(case["binsize"]), C.tup(C.tup(t, sz), px))
+            exprs.append(f"(match zoomify_cooler_g {G.coq_agg(case['agg'].get(c, 'sum'))} [{base}] {C.zl(case['resolutions'])} {C.z(case['chunksize'])} 1 with "
+                         f"| None => None | Some lv => Some (map (fun rc => (fst rc, snd (snd rc))) lv) end)")
+            owners.append((i, c))
+    model = C.coq_eval(HDR, exprs, tmpdir=ctx.tmp / "colsv")
+    mlev = {}
+    for (i, c), mo in zip(owners, model):
+        d = {}
+        if mo is not None:
+            for r, px_ in mo[1]:
+                d.setdefault(r, [list(p) for p in px_])
+        mlev[(i, c)] = d
     for i, case in enumerate(cases):
         nontriv = any(v != "sum" for v in case["agg"].values()) or case["extra"] is not None
         ctx.case(case, nontrivial=nontriv, kind="zoomify:agg:" + (case.get("via") or "api") + ":" + "+".join(f"{c}={case['agg'].get(c, 'sum')}" for c in case["columns"]))
@@ -535,6 +555,12 @@ def part_cols(ctx):
         bad = cols_oracle(case, st, res)
         if bad:
             ctx.fail(case, bad, None)
+        if st == "ok":
+            for c in case["columns"]:
+                for r, (cols, keys, vals) in sorted(res.items()):
+                    if c in cols:
+                        ctx.compare(f"zoomify level {r} column {c} (model with the requested aggregation)", case,
+                                    [k_ + [v] for k_, v in zip(keys, vals[c])], mlev[(i, c)].get(r))
     return len(cases)
 
 
